@@ -32,7 +32,7 @@ HBH = [0x01020304, 0x01020305, 0x01020404, 0xFFFFFFFF, 0x00000000, 0x80000000, 0
 
 
 LINE_FUNCS = ["is_pending_answer", "is_pending_answer", "get_pending_answer", "remove_pending_answer", "insert_pending_answer", "handler_pending_answers",
-              "send_message", "wait", "notify", "update_msg"]
+              "send_message", "wait", "notify", "update_msg", "@exit"]
 
 
 class ShimManager:
@@ -75,7 +75,10 @@ def cases(draw):
     # fault: the hand-over to the worker process fails once for one caller (a manager proxy raises on a broken pipe); the caller
     # simply sends the same request again
     fault = draw(st.sampled_from([None, None, None, 0, k - 1]))
-    return {"k": k, "hbh": hbh, "apps": apps, "lhold": lhold, "fault": fault, "perm": perm, "delays": delays, "extras": extras, "sched": sched, "hold": hold,
+    # what the answers carry (legal content a log line or a "tidy" code path may trip over), and whether they were decoded from bytes
+    flavors = [draw(st.sampled_from([None, None, "error-message-non-ascii", "binary-user-name", "e-bit-5012", "experimental", "failed-avp", "decoded",
+                                     "decoded+error-message-non-ascii"])) for _ in range(k)]
+    return {"flavors": flavors, "via_main": draw(st.booleans()), "k": k, "hbh": hbh, "apps": apps, "lhold": lhold, "fault": fault, "perm": perm, "delays": delays, "extras": extras, "sched": sched, "hold": hold,
             "lines": draw(st.booleans()) if sched else False, "stagger": draw(st.sampled_from([0.0, 0.0, 0.005]))}
 
 
@@ -135,6 +138,21 @@ def run_one(case):
                                    avps=[C("SessionIdAVP")(f"s;{i}".encode()), C("ResultCodeAVP")(2001 + i)])
                 a.header.hop_by_hop = case["hbh"][i]
                 a.header.end_to_end = 1000 + i
+                fl = (case.get("flavors") or [None] * case["k"])[i] or ""
+                if "error-message-non-ascii" in fl:
+                    a.append(C("ErrorMessageAVP")("d\u00e9sol\u00e9 \u2713 \u65e5\u672c"))
+                if "binary-user-name" in fl:
+                    a.append(C("UserNameAVP")(b"\xff\xfe\x00user"))
+                if "e-bit-5012" in fl:
+                    a.result_code_avp.data = (5012).to_bytes(4, "big")
+                    a.header.set_error_bit(True)
+                if "experimental" in fl:
+                    a.append(C("ExperimentalResultAVP")([C("VendorIdAVP")(10415), C("ExperimentalResultCodeAVP")(5420)]))
+                if "failed-avp" in fl:
+                    a.append(C("FailedAvpAVP")([C("UserNameAVP")("bad")]))
+                if "decoded" in fl:
+                    from bromelia.base import DiameterMessage
+                    a = DiameterMessage.load(a.dump())[0]
                 answers.append(a)
             for n, wk in zip(names, the_workers):
                 sched.spawn(wk.send_handler, "send_handler" if n == "s6a" else f"send_handler-{n}")
@@ -173,6 +191,17 @@ def run_one(case):
                 return run
 
             dispatched = []
+            started = {}
+
+            def dispatch(msg, name, idx=None):
+                """hands an answer to the application layer: through the real create_message_thread (as Bromelia.main does after
+                the poll) or directly in a thread of the harness"""
+                if case.get("via_main"):
+                    t = app.create_message_thread(msg)
+                    if idx is not None:
+                        started[idx] = t
+                else:
+                    sched.spawn(lambda: app.handler_pending_answers(msg), name)
 
             def network():
                 for j, idx in enumerate(case["perm"]):
@@ -180,14 +209,14 @@ def run_one(case):
                     if case["delays"][j]:
                         bb.time.sleep(case["delays"][j])
                     dispatched.append(idx)
-                    sched.spawn(lambda idx=idx: app.handler_pending_answers(answers[idx]), f"answer-{idx}")
+                    dispatch(answers[idx], f"answer-{idx}", idx)
                     for x, kind in enumerate(case["extras"]):
                         if kind == "dup" and j == 0:
-                            sched.spawn(lambda idx=idx: app.handler_pending_answers(answers[idx]), f"answer-dup-{idx}")
+                            dispatch(answers[idx], f"answer-dup-{idx}")
                         if kind == "unsolicited" and j == 0:
                             u = DiameterAnswer(command_code=316, application_id=16777251, avps=[C("ResultCodeAVP")(2001)])
                             u.header.hop_by_hop = 0x55AA55AA
-                            sched.spawn(lambda u=u: app.handler_pending_answers(u), "answer-unsolicited")
+                            dispatch(u, "answer-unsolicited")
 
             sched.choices = list(case["sched"])
             sched.choice_i = 0
@@ -196,10 +225,13 @@ def run_one(case):
                 # until its answer has been handled (or 5 virtual seconds have passed)
                 h = case["hold"]
                 sched.hold(f"caller-{h}", "event.set", 1,
-                           lambda: any(t.name == f"answer-{h}" and t.state == "finished" for t in sched.threads), 5.0)
+                           lambda: any(t.name == f"answer-{h}" and t.state == "finished" for t in sched.threads)
+                           or (h in started and not started[h].is_alive()), 5.0)
             if case.get("lhold"):
                 t_, fn_, n_, d_ = case["lhold"]
-                sched.hold(t_, "line:" + fn_, n_, lambda: False, d_)
+                if case.get("via_main") and t_.startswith("answer-"):
+                    t_ = "!caller,network,send_handler,driver"          # whatever thread the library starts for an answer
+                sched.hold(t_, "line:" + fn_ if fn_ != "@exit" else "thread.exit", n_, lambda: False, d_)
             cts = [sched.spawn(caller(i), f"caller-{i}") for i in range(case["k"])]
             sched.spawn(network, "network")
             r = sched.run_until(lambda: all(c.state == "finished" for c in cts) or sched.overrun, 20.0)
@@ -274,6 +306,13 @@ def _collect(shard, seed, n):
             f.add("preempted-at-source-line")
         for x in case["extras"]:
             f.add("extra=" + x)
+        if case.get("via_main"):
+            f.add("answers-through-create_message_thread")
+        for fl in case.get("flavors") or []:
+            if fl:
+                f.add("answer-carries=" + fl.replace("decoded+", ""))
+                if "decoded" in fl:
+                    f.add("answer-decoded-from-bytes")
         if len(set(h >> 8 for h in case["hbh"])) < len(case["hbh"]):
             f.add("ids-differ-in-one-byte")
         col.record(case, vs, nontrivial=bool(f & {"non-identity-arrival", "zero-delay-answer", "answer-handled-between-enqueue-and-registration"}), classes=sorted(f))
@@ -282,13 +321,42 @@ def _collect(shard, seed, n):
     return col
 
 
+def lingering_answer_thread_case(gap, k=2):
+    """directed: the thread the library starts for the first answer has run its function to the end but is still alive (for 0.4
+    virtual s) when the next answer is handed over"""
+    c = parked_answer_thread_case(1, gap, k)
+    c["lhold"] = ["!caller,network,send_handler,driver", "@exit", 1, 0.4]
+    return c
+
+
+def parked_answer_thread_case(n, gap, k=2):
+    """directed: the thread the library starts for the first answer is parked at the n-th source line it executes (in whatever
+    function) for 0.4 virtual s; the next answer is handed to create_message_thread `gap` s after the first"""
+    return {"flavors": [None] * k, "via_main": True, "k": k, "hbh": HBH[:k], "apps": ["s6a"] * k, "lhold": ["!caller,network,send_handler,driver", "*", n, 0.4],
+            "fault": None, "perm": list(range(k)), "delays": [0.0] + [gap] * (k - 1), "extras": [], "sched": [], "hold": None, "lines": False, "stagger": 0.0}
+
+
+def _sweep_parked(args):
+    col = Collector(PID, RULE)
+    for n, gap in args:
+        case = parked_answer_thread_case(n, gap) if n > 0 else lingering_answer_thread_case(gap, k=2 - n)
+        vs, info = run_one(case)
+        col.record(case, vs, nontrivial=bool(info.get("holds_taken")), classes=["sweep-answer-thread-parked-while-next-answer-arrives"] if info.get("holds_taken") else ["sweep-beyond-last-line"])
+    return col
+
+
 def main(ctx):
     col = common.run_shards(_collect, 8 if ctx.quick else 16, ctx.seed, n=120 if ctx.quick else 2500)
+    pts = [(n, gap) for n in range(1, 161 if ctx.quick else 421) for gap in ((0.1,) if ctx.quick else (0.1, 0.01))]
+    pts += [(-j, gap) for j in (0, 1, 2) for gap in (0.001, 0.01, 0.1, 0.2)]          # n <= 0: lingering thread, k = 2 - n callers
+    for part in common.pmap(_sweep_parked, [pts[i::16] for i in range(16)]):
+        col.merge(part)
     for path, rec in common.load_replays(PID):
         col.record(rec["case"], run_case(rec["case"]), nontrivial=True, classes=["replay"])
     ctx.required_classes = ["answer-handled-between-enqueue-and-registration", "non-identity-arrival", "zero-delay-answer", "prefix-with-switch", "preempted-at-source-line", "k=1", "k=4",
                             "extra=dup", "extra=unsolicited", "ids-differ-in-one-byte", "two-connections", "same-hop-by-hop-on-two-connections",
-                            "delayed-at-source-line-in-registry-code", "hand-over-failed-once-then-retried"]
+                            "delayed-at-source-line-in-registry-code", "hand-over-failed-once-then-retried", "answers-through-create_message_thread",
+                            "answer-carries=error-message-non-ascii", "answer-decoded-from-bytes", "sweep-answer-thread-parked-while-next-answer-arrives"]
     ctx.assumptions = ["in-process Worker with shim primitives instead of multiprocessing proxies; the worker's real send_handler loop runs as a "
                        "controlled thread; 'always wakes' is bounded liveness: 20 virtual seconds under fair completion",
                        "schedules are sampled (random walk / PCT-like prefixes, optional line preemption)"]
